@@ -141,6 +141,116 @@ struct Cache<T: Clone> {
     data: Vec<RefCell<Option<Vec<T>>>>,
 }
 
+/// Verification hooks (cfg `smartcore_verif` only): a thread-local trace of the SMO iterations of
+/// `SVR::fit`.
+#[cfg(smartcore_verif)]
+pub mod verif {
+    use std::cell::{Cell, RefCell};
+
+    /// One recorded event.
+    #[derive(Debug, Clone)]
+    pub enum Event {
+        /// one iteration of the main loop
+        Iter {
+            /// position of the first vector
+            v1: usize,
+            /// which of its two coefficients
+            i: usize,
+            /// position of the second vector
+            v2: usize,
+            /// which of its two coefficients
+            j: usize,
+            /// curvature used for the step
+            curv: f64,
+            /// unclipped step
+            delta: f64,
+            /// first coefficient before the step
+            alpha_i_before: f64,
+            /// second coefficient before the step
+            alpha_j_before: f64,
+            /// first coefficient after clipping
+            alpha_i_after: f64,
+            /// second coefficient after clipping
+            alpha_j_after: f64,
+            /// all coefficients `[alpha[0], alpha[1]]` after the step
+            alpha: Vec<[f64; 2]>,
+            /// all gradients after the step
+            grad: Vec<[f64; 2]>,
+            /// gmin after the step
+            gmin: f64,
+            /// gmax after the step
+            gmax: f64,
+        },
+        /// loop exit
+        Exit {
+            /// number of iterations done
+            iterations: usize,
+            /// all coefficients
+            alpha: Vec<[f64; 2]>,
+            /// all gradients
+            grad: Vec<[f64; 2]>,
+            /// gmin at exit
+            gmin: f64,
+            /// gmax at exit
+            gmax: f64,
+            /// bias
+            b: f64,
+        },
+    }
+
+    thread_local! {
+        /// recording switch (off by default)
+        pub static ENABLED: Cell<bool> = Cell::new(false);
+        /// the trace of this thread, oldest first
+        pub static TRACE: RefCell<Vec<Event>> = RefCell::new(Vec::new());
+        /// number of iterations of the last fit on this thread (always counted)
+        pub static ITERATIONS: Cell<usize> = Cell::new(0);
+    }
+
+    /// is recording on?
+    pub fn enabled() -> bool {
+        ENABLED.with(|e| e.get())
+    }
+    /// append an event if recording is on
+    pub fn push(e: Event) {
+        if enabled() {
+            TRACE.with(|t| {
+                let mut t = t.borrow_mut();
+                // bounded, so that a non-terminating fit cannot exhaust memory
+                if t.len() < 200_000 {
+                    t.push(e);
+                }
+            });
+        }
+    }
+    /// switch recording on and clear the trace
+    pub fn start() {
+        ENABLED.with(|e| e.set(true));
+        TRACE.with(|t| t.borrow_mut().clear());
+    }
+    /// switch recording off and return the trace
+    pub fn take() -> Vec<Event> {
+        ENABLED.with(|e| e.set(false));
+        TRACE.with(|t| std::mem::take(&mut *t.borrow_mut()))
+    }
+}
+
+#[cfg(smartcore_verif)]
+impl<'a, T: RealNumber, M: Matrix<T>, K: Kernel<T, M::RowVector>> Optimizer<'a, T, M, K> {
+    fn verif_alpha(&self) -> Vec<[f64; 2]> {
+        self.sv
+            .iter()
+            .map(|v| [v.alpha[0].to_f64().unwrap(), v.alpha[1].to_f64().unwrap()])
+            .collect()
+    }
+    fn verif_grad(&self) -> Vec<[f64; 2]> {
+        self.sv
+            .iter()
+            .map(|v| [v.grad[0].to_f64().unwrap(), v.grad[1].to_f64().unwrap()])
+            .collect()
+    }
+}
+
 impl<T: RealNumber, M: Matrix<T>, K: Kernel<T, M::RowVector>> SVRParameters<T, M, K> {
     /// Epsilon in the epsilon-SVR model.
     pub fn with_eps(mut self, eps: T) -> Self {
@@ -368,6 +478,9 @@ impl<'a, T: RealNumber, M: Matrix<T>, K: Kernel<T, M::RowVector>> Optimizer<'a, 
 
         self.find_min_max_gradient();
 
+        #[cfg(smartcore_verif)]
+        let mut verif_iterations = 0usize;
+
         while self.gmax - self.gmin > self.tol {
             let v1 = self.svmax;
             let i = self.gmaxindex;
@@ -432,6 +545,13 @@ impl<'a, T: RealNumber, M: Matrix<T>, K: Kernel<T, M::RowVector>> Optimizer<'a, 
                 curv = self.tau;
             }
 
+            #[cfg(smartcore_verif)]
+            let verif_delta = if i != j {
+                (-self.sv[v1].grad[i] - self.sv[v2].grad[j]) / curv
+            } else {
+                (self.sv[v1].grad[i] - self.sv[v2].grad[j]) / curv
+            };
+
             if i != j {
                 let delta = (-self.sv[v1].grad[i] - self.sv[v2].grad[j]) / curv;
                 let diff = self.sv[v1].alpha[i] - self.sv[v2].alpha[j];
@@ -495,9 +615,47 @@ impl<'a, T: RealNumber, M: Matrix<T>, K: Kernel<T, M::RowVector>> Optimizer<'a, 
             }
 
             self.find_min_max_gradient();
+
+            #[cfg(smartcore_verif)]
+            {
+                verif_iterations += 1;
+                if verif::enabled() {
+                    verif::push(verif::Event::Iter {
+                        v1,
+                        i,
+                        v2,
+                        j,
+                        curv: curv.to_f64().unwrap(),
+                        delta: verif_delta.to_f64().unwrap(),
+                        alpha_i_before: old_alpha_i.to_f64().unwrap(),
+                        alpha_j_before: old_alpha_j.to_f64().unwrap(),
+                        alpha_i_after: self.sv[v1].alpha[i].to_f64().unwrap(),
+                        alpha_j_after: self.sv[v2].alpha[j].to_f64().unwrap(),
+                        alpha: self.verif_alpha(),
+                        grad: self.verif_grad(),
+                        gmin: self.gmin.to_f64().unwrap(),
+                        gmax: self.gmax.to_f64().unwrap(),
+                    });
+                }
+            }
         }
 
         let b = -(self.gmax + self.gmin) / T::two();
+
+        #[cfg(smartcore_verif)]
+        {
+            verif::ITERATIONS.with(|c| c.set(verif_iterations));
+            if verif::enabled() {
+                verif::push(verif::Event::Exit {
+                    iterations: verif_iterations,
+                    alpha: self.verif_alpha(),
+                    grad: self.verif_grad(),
+                    gmin: self.gmin.to_f64().unwrap(),
+                    gmax: self.gmax.to_f64().unwrap(),
+                    b: b.to_f64().unwrap(),
+                });
+            }
+        }
 
         let mut support_vectors: Vec<M::RowVector> = Vec::new();
         let mut w: Vec<T> = Vec::new();
